@@ -16,6 +16,27 @@ layouts   zip  {"arch": "zip", "comp": stored | deflated | mixed}               
                 "header": plain | encoded, "between": False | True}                   independent writer verif.gen.sevenz
           packer variants (base cases only): tar + {"fmt": "gnu"} (GNU tar headers); 7z plain header + {"attrs": "unix"}
           (attribute and modification-time records as p7zip writes them)
+names     member-name families (lay["names"], base cases only); each is crossed with every member sequence on the layouts listed
+          in name_layouts(): quick = zip stored/deflated, tar plain (ustar, GNU) / gz, 7z copy-solid / lzma2-per-file unless noted;
+          thorough = every zip / tar (x ustar, GNU, pax) / 7z coder x folder layout (sequences of length 0..3 on the quick
+          layouts, 0..2 on the added ones)
+              wide       names outside ASCII (incl. UTF-16 code units with a zero byte next to a zero byte)
+              dotslash   every name relative to the current directory: ./<tok>.txt, ./dir/<tok>.txt (tar -cf x.tar . / zip -r x.zip .)
+              dotdir     every directory is a dot directory .<dir>/ ; presence of the files below it is NOT judged (hidden or not is a
+                         matter of reading), what is yielded must be right
+              inner:0-2  look-alikes of the skip rules where they do not decide: directories <d>.zip/ __MACOSX<d>.bin/ x__MACOSX/, stems
+                         <n>.tar.<ext> __MACOSX.v1.2<n>.<ext> <n>.bin..zip.x.<ext>  (3 rotations: every form at every position)
+              upper      extensions in upper case / capitalised (.TXT, .Docx)
+              space      leading, inner, double and trailing blanks in stems and directory names
+              same       one stem and one directory name for all positions: two versions of a file under one name (what tar -r / -u,
+                         tarfile mode "a" and zipfile.writestr leave behind; tar plain/gz/bz2/xz + GNU, zip), namesakes in different
+                         directories, the same stem with different extensions.  7z archives with one name twice are not judged
+              long       stems of 120 and directory names of 90 characters: GNU ././@LongLink members, pax extended headers (tar), zip, 7z
+              split      directory names of 90 + stems of 60 characters: the ustar prefix / name split (tar ustar only)
+              lead:<m>   every stem and directory name starts with the printable start of a magic number, <m> in BZ PK 7z (thorough:
+                         also PK\x03\x04): a plain tar begins with the name of its first member (tar plain x ustar/GNU[/pax]; tar gz, zip,
+                         7z as controls)
+          results are matched to members by (file_path, occurrence number); "." components of a path are not compared
 corrupt   one member at a time, every position that carries a data stream, archives with >= 1 other member that has a result
           "doc"    damaged document: the member's bytes are cut in half, the container is consistent        (zip, tar, 7z)
           "crc"    zip: the CRC-32 field of the member (local + central header) is wrong
@@ -46,6 +67,7 @@ import logging
 import os
 import random
 import tarfile
+import warnings
 import zipfile
 import zlib
 
@@ -71,6 +93,17 @@ ARCH_PATH = {"zip": "pkg/Archive.zip", "7z": "pkg/Archive.7z", "tar:plain": "pkg
 META_FILE_FIELDS = ("filename", "file_extension", "file_path", "folder_path")
 MAXLEN = 6
 WIDE_NAMES = ["a\u4e00b", "\u00e9\u3000x", "z\u0100", "2024\u3000\u5831\u544a", "\u0436\u0400q", "\u7b2c\u4e00\u7ae0"]
+# member-name families (lay["names"]); every family is crossed with every member sequence on a small set of layouts (name_layouts)
+LEADS = ["BZ", "PK", "7z"]                      # printable starts of the compression / container magics
+LEADS_THOROUGH = ["PK\x03\x04"]                # a complete binary magic (thorough tier)
+NAME_FAMILIES = (["dotslash", "dotdir", "inner:0", "inner:1", "inner:2", "upper", "space", "same", "long", "split"]
+                 + ["lead:" + x for x in LEADS])
+# look-alikes of the skip rules (dot file, __MACOSX/ prefix, unsupported / nested-archive extension) in the part of the name that
+# does not decide: directory names and the inside of the stem
+INNER_DIRS = ["{}.zip", "__MACOSX{}.bin", "x__MACOSX"]
+INNER_STEMS = ["{}.tar", "__MACOSX.v1.2{}", "{}.bin..zip.x"]
+SPACE_FORMS = [" {} {}", "{}  {} "]
+LONG_STEM, LONG_DIR, SPLIT_STEM = 120, 90, 60
 
 
 # ------------------------------------------------------------------------------------------------------------ members
@@ -131,28 +164,57 @@ def damage(data: bytes) -> bytes:
     return data[:len(data) // 2]
 
 
+def name_parts(fam, i, toks):
+    """(stem, directory name, extension transform) of position i in the member-name family fam"""
+    stem, d, ext = toks[i]["name"], toks[i]["dir"], (lambda e: e)
+    if fam == "wide":
+        # non-ASCII names; in UTF-16LE (7z) a character below U+0100 followed by one whose low byte is 00 puts two zero
+        # bytes next to each other across a code-unit boundary
+        stem = stem[:4] + WIDE_NAMES[i % len(WIDE_NAMES)]
+    elif fam == "same":
+        stem, d = toks[0]["name"], toks[0]["dir"]          # one stem, one directory name: versions of a file, namesakes
+    elif fam == "dotdir":
+        d = "." + d
+    elif fam and fam.startswith("inner:"):
+        k = (i + int(fam[6:])) % len(INNER_DIRS)
+        stem, d = INNER_STEMS[k].format(stem), INNER_DIRS[k].format(d)
+    elif fam == "upper":
+        ext = (lambda e: e.upper()) if i % 2 == 0 else (lambda e: e.capitalize())
+    elif fam == "space":
+        f = SPACE_FORMS[i % len(SPACE_FORMS)]
+        stem, d = f.format(stem[:3], stem[3:]), f.format(d[:2], d[2:])
+    elif fam == "long":
+        stem, d = stem + "L" * (LONG_STEM - len(stem)), d + "d" * (LONG_DIR - len(d))
+    elif fam == "split":
+        stem, d = stem + "s" * (SPLIT_STEM - len(stem)), d + "d" * (LONG_DIR - len(d))
+    elif fam and fam.startswith("lead:"):
+        stem, d = fam[5:] + stem, fam[5:] + d
+    return stem, d, ext
+
+
 def build_members(case, seed):
-    """-> list of {"name", "kind", "data" (bytes | None for directories), "pos"} in archive order (7z 'between' not yet applied)"""
+    """-> list of {"name", "kind", "data" (bytes | None for directories), "pos"} in archive order (7z 'between' not yet applied);
+    "optional": True marks a member whose presence among the results is not judged (file below a dot directory)"""
     toks = _tokens(seed)
     cor = case.get("corrupt")
+    fam = case["lay"].get("names")
     out = []
-    cur = ""
+    cur = "./" if fam == "dotslash" else ""
+    root = cur
     for i, kind in enumerate(case["members"]):
-        t = toks[i]
+        stem, d, ext = name_parts(fam, i, toks)
         if kind == "dir":
-            cur = cur + t["dir"] + "/"
+            cur = cur + d + "/"
             out.append({"name": cur.rstrip("/"), "kind": "dir", "data": None, "pos": i})
             continue
-        stem = t["name"]
-        if case["lay"].get("names") == "wide":
-            # non-ASCII names; in UTF-16LE (7z) a character below U+0100 followed by one whose low byte is 00 puts two zero
-            # bytes next to each other across a code-unit boundary
-            stem = stem[:4] + WIDE_NAMES[i % len(WIDE_NAMES)]
-        base = ("." if kind == "hidden" else "") + stem + "." + EXT[kind]
+        base = ("." if kind == "hidden" else "") + stem + "." + ext(EXT[kind])
         data = member_bytes(seed, i, kind)
         if cor and cor[0] == i and cor[1] == "doc":
             data = damage(data)
-        out.append({"name": cur + base, "kind": kind, "data": data, "pos": i})
+        m = {"name": cur + base, "kind": kind, "data": data, "pos": i}
+        if fam == "dotdir" and cur != root:
+            m["optional"] = True
+        out.append(m)
     return out
 
 
@@ -195,7 +257,9 @@ def build_zip(case, ms):
         else:
             zm.append({"name": m["name"], "data": m["data"], "method": _zip_method(lay, i)})
     if not cor or cor[1] == "doc":
-        return zipforge.zip_honest(zm), set()
+        with warnings.catch_warnings():
+            warnings.simplefilter("ignore")          # zipfile: "Duplicate name" (two versions of one file)
+            return zipforge.zip_honest(zm), set()
     p, how = cor
     idx = [i for i, m in enumerate(ms) if m["pos"] == p][0]
     tgt = dict(zm[idx])
@@ -397,6 +461,28 @@ def short(s, n=160):
 
 
 # ------------------------------------------------------------------------------------------------------------ oracle
+def norm_path(p):
+    """archive!/member path without "." components in the member part (a/./b and ./a name the same member as a/b and a)"""
+    if "!/" not in p:
+        return p
+    head, tail = p.split("!/", 1)
+    return head + "!/" + "/".join(c for c in tail.split("/") if c != ".")
+
+
+def _keyed(paths):
+    """k-th occurrence of a path -> (path, k): two members (versions of a file) may carry one name"""
+    seen, out = {}, []
+    for p in paths:
+        k = seen.get(p, 0)
+        seen[p] = k + 1
+        out.append((p, k))
+    return out
+
+
+def _show(keys):
+    return [p if k == 0 else f"{p} (#{k + 1})" for p, k in keys]
+
+
 def judge_base(case, ms, apath, got, err, seed):
     """clauses of an uncorrupted archive -> (fails, outcome)"""
     fails = []
@@ -407,56 +493,59 @@ def judge_base(case, ms, apath, got, err, seed):
         full = f"{apath}!/{m['name']}"
         views, _ = direct(m["name"], m["data"], full)
         for v in views:
-            exp.append((i, os.path.basename(m["name"]), full, v[2]))
+            exp.append((i, os.path.basename(m["name"]), norm_path(full), v[2]))
+    got = [(g[0], norm_path(g[1]), g[2]) for g in got]
     lay = case["lay"]
+    exp_keys = _keyed([e[2] for e in exp])
+    got_keys = _keyed([g[1] for g in got])
+    required = [(e, k) for e, k in zip(exp, exp_keys) if not ms[e[0]].get("optional")]
     if err is not None:
         if lay["arch"] == "tar" and lay["comp"] == "plain" and not ms:
             return [], "empty-plain-tar:" + err.split(":")[0]          # 10 KiB of zeros carry no magic: not judged
-        lost = [e[2] for e in exp if e[2] not in [g[1] for g in got]]
+        lost = _show([k for e, k in required if k not in got_keys])
         if lost:
             fails.append(("member_result", f"no result for supported member(s) {lost}: read_archive raised {short(err, 300)} after yielding "
                                            f"{len(got)} of {len(exp)} expected results; members {[m['name'] for m in ms]}"))
         else:
-            fails.append(("raises", f"read_archive raised {short(err, 300)} on a valid archive (all {len(exp)} expected results had been "
+            fails.append(("raises", f"read_archive raised {short(err, 300)} on a valid archive (all {len(required)} expected results had been "
                                     f"yielded); members {[m['name'] for m in ms]}"))
         return fails, "raises:" + err.split(":")[0] + (":lost" if lost else "")
-    by_path = {m_full: i for i, _, m_full, _ in exp}
-    all_paths = {f"{apath}!/{m['name']}": m for m in ms}
-    got_paths = [g[1] for g in got]
-    exp_paths = [e[2] for e in exp]
-    missing = [e for e in exp if e[2] not in got_paths]
-    miss_empty = [e for e in missing if ms[e[0]]["kind"] in ("empty", "between")]
-    miss_other = [e for e in missing if ms[e[0]]["kind"] not in ("empty", "between")]
+    by_key = {k: e for e, k in zip(exp, exp_keys)}
+    all_paths = {norm_path(f"{apath}!/{m['name']}"): m for m in ms}
+    got_paths = _show(got_keys)
+    missing = [(e, k) for e, k in required if k not in got_keys]
+    miss_empty = [(e, k) for e, k in missing if ms[e[0]]["kind"] in ("empty", "between")]
+    miss_other = [(e, k) for e, k in missing if ms[e[0]]["kind"] not in ("empty", "between")]
     if miss_other:
-        fails.append(("member_result", f"no result for supported member(s) {[(ms[e[0]]['kind'], e[2]) for e in miss_other]}; got paths {got_paths}"))
+        fails.append(("member_result", f"no result for supported member(s) {[(ms[e[0]]['kind'], _show([k])[0]) for e, k in miss_other]}; "
+                                       f"got paths {got_paths}"))
     if miss_empty:
-        fails.append(("missing_empty", f"no result for the empty file(s) {[e[2] for e in miss_empty]} although extracting 0 bytes as "
-                                       f"{os.path.basename(miss_empty[0][2])!r} on its own yields a result; got paths {got_paths}"))
-    extra = [g for g in got if g[1] not in by_path]
+        fails.append(("missing_empty", f"no result for the empty file(s) {_show([k for _, k in miss_empty])} although extracting 0 bytes as "
+                                       f"{os.path.basename(miss_empty[0][0][2])!r} on its own yields a result; got paths {got_paths}"))
+    extra = [(g, k) for g, k in zip(got, got_keys) if k not in by_key]
     if extra:
         desc = []
-        for g in extra:
+        for g, k in extra:
             m = all_paths.get(g[1])
-            desc.append((g[0], g[1], m["kind"] if m else "no such member"))
+            desc.append((g[0], _show([k])[0], m["kind"] if m else "no such member"))
         fails.append(("extra", f"result(s) that belong to no supported visible member: {desc}"))
-    if not missing and not extra and got_paths != exp_paths:
-        fails.append(("order", f"results come as {got_paths}, archive order is {exp_paths}"))
+    exp_order = [k for k in exp_keys if k in set(got_keys)]         # optional members that were not yielded do not count
+    if not missing and not extra and got_keys != exp_order:
+        fails.append(("order", f"results come as {got_paths}, archive order is {_show(exp_order)}"))
     contents = {}
-    for e in exp:
-        contents.setdefault(e[3], e[2])
-    seen = set()
-    for g in got:
-        if g[1] not in by_path or g[1] in seen:
+    for e, k in zip(exp, exp_keys):
+        contents.setdefault(e[3], _show([k])[0])
+    for g, k in zip(got, got_keys):
+        if k not in by_key:
             continue
-        seen.add(g[1])
-        e = [x for x in exp if x[2] == g[1]][0]
+        e = by_key[k]
         if g[0] != e[1]:
             fails.append(("filename", f"result with file_path {g[1]!r} is labelled filename {g[0]!r}, member base name is {e[1]!r}"))
         if g[2] != e[3]:
             other = contents.get(g[2])
             why = f"it equals the extraction of member {other!r}" if other else f"got {short(g[2], 200)}"
-            fails.append(("member_result", f"{ms[e[0]]['kind']} member {g[1]!r}: content differs from extracting its bytes on their own "
-                                     f"(expected {short(e[3], 200)}); {why}"))
+            fails.append(("member_result", f"{ms[e[0]]['kind']} member {_show([k])[0]!r}: content differs from extracting its bytes on "
+                                     f"their own (expected {short(e[3], 200)}); {why}"))
             break
     oc = "ok" if not fails else "fail:" + ",".join(sorted({c for c, _ in fails}))
     return fails, oc
@@ -502,7 +591,21 @@ def evaluate(case, seed=0, clean_cache=None):
     logging.disable(logging.CRITICAL)       # the library logs every skipped member; this process only runs the check
     lay = case["lay"]
     apath = arch_path(lay)
-    ms, data, affected = build_archive(case, seed)
+    if lay["arch"] == "7z" and lay.get("names"):
+        names = [m["name"] for m in final_members(case, seed)]
+        if len(set(names)) != len(names):
+            # tar -r / -u and zipfile append a second version under the same name; no 7z packer writes one name twice
+            if clean_cache is not None:
+                clean_cache["got"], clean_cache["blocked"] = [], True
+            return [], "7z:base:not-judged(two entries with one name)", None
+    try:
+        ms, data, affected = build_archive(case, seed)
+    except NotImplementedError as e:
+        if lay["arch"] == "tar" and lay.get("names") and "not expressible" in str(e):
+            if clean_cache is not None:
+                clean_cache["got"], clean_cache["blocked"] = [], True
+            return [], f"tar:base:not-built(name too long for a {lay.get('fmt', 'ustar')} header)", None
+        raise
     prob = readback(case, ms, data, affected)
     if prob:
         return [], "generator-problem", f"{json.dumps(case)}: {prob}"
@@ -551,6 +654,48 @@ def layouts(tier):
     for coder, layout in itertools.product(SZ_CODERS, SZ_LAYOUTS):
         out.append({"arch": "7z", "coder": coder, "layout": layout, "header": "plain", "between": False, "names": "wide"})
     out.append({"arch": "7z", "coder": "lzma2", "layout": "solid", "header": "encoded", "between": True, "names": "wide"})
+    out.append({"arch": "tar", "comp": "plain", "fmt": "pax", "names": "wide"})
+    for fam in name_families(tier):
+        for lay in name_layouts(fam, tier):
+            lay = dict(lay)
+            lay["names"] = fam
+            out.append(lay)
+    return out
+
+
+def name_families(tier):
+    return NAME_FAMILIES + (["lead:" + x for x in LEADS_THOROUGH] if tier != "quick" else [])
+
+
+_Z = lambda c: {"arch": "zip", "comp": c}                                                            # noqa: E731
+_T = lambda c, f=None: {"arch": "tar", "comp": c, **({"fmt": f} if f else {})}                       # noqa: E731
+_S = lambda c, l: {"arch": "7z", "coder": c, "layout": l, "header": "plain", "between": False}       # noqa: E731
+
+
+def name_layouts(fam, tier):
+    """the layouts a member-name family is crossed with (base cases only)"""
+    quick = tier == "quick"
+    tar_fmts = [None, "gnu"] if quick else [None, "gnu", "pax"]
+    if fam == "split":                       # ustar prefix/name split: the only format that has one
+        return [_T(c) for c in (["plain", "gz"] if quick else TAR_COMP)]
+    if fam.startswith("lead:"):              # only a plain tar starts with its first member's name; gz / zip / 7z as controls
+        return [_T("plain", f) for f in tar_fmts] + [_T("gz"), _Z("stored"), _S("copy", "solid")]
+    if fam == "long":                        # > 100 bytes: GNU long-name members / pax records (ustar: see "split")
+        out = [_T("plain", "gnu"), _T("plain", "pax"), _T("gz", "pax")]
+        if not quick:
+            out += [_T(c, f) for c in TAR_COMP for f in ("gnu", "pax") if _T(c, f) not in out]
+    elif fam == "same":                      # versions of one file: what tar -r / -u and zipfile append
+        out = [_T(c) for c in TAR_COMP] + [_T("plain", "gnu")]
+        if not quick:
+            out += [_T(c, f) for c in TAR_COMP for f in ("gnu", "pax") if _T(c, f) not in out]
+    elif fam.startswith("inner:") and quick:
+        return [_Z("stored"), _T("plain"), _S("copy", "solid")]
+    else:
+        out = [_T("plain", f) for f in tar_fmts] + [_T("gz")]
+        if not quick:
+            out += [_T(c) for c in ("bz2", "xz")]
+    out += [_Z("stored"), _Z("deflated")] if quick else [_Z(c) for c in ZIP_COMP]
+    out += [_S("copy", "solid"), _S("lzma2", "per_file")] if quick else [_S(c, l) for c in SZ_CODERS for l in SZ_LAYOUTS]
     return out
 
 
@@ -602,9 +747,19 @@ def reaches_others(case, seed):
     return any(m["kind"] in RESULT_KINDS and i not in affected for i, m in enumerate(ms))
 
 
+def seq_tier(lay, tier):
+    """member sequences of a layout: a name family gets the long sequences of the thorough tier on its quick layouts, the
+    short ones on the layouts that only the thorough tier adds"""
+    fam = lay.get("names")
+    if tier == "quick" or fam is None or fam == "wide" or fam not in NAME_FAMILIES:
+        return tier
+    plain = {k: v for k, v in lay.items() if k != "names"}
+    return tier if plain in name_layouts(fam, "quick") else "quick"
+
+
 def bases(tier):
     for lay in layouts(tier):
-        for seq in sequences(tier):
+        for seq in sequences(seq_tier(lay, tier)):
             yield {"lay": lay, "members": seq, "corrupt": None}
 
 
@@ -688,10 +843,16 @@ def run(ctx):
                    "then read by read_archive and compared with the direct extraction of every member; plus, for every position that owns a "
                    "data stream (and >= 1 other member with a result), one corruption at a time: damaged document (all containers), bad CRC / "
                    "truncated deflate stream (zip), flipped byte / truncated pack stream (7z, plain header without interleaved empties); "
+                   f"plus the member-name families {name_families(ctx.tier)} (names relative to ./, dot directories, skip-rule look-alikes "
+                   "inside names, upper-case extensions, blanks, one name for several members = versions of a file, names over 100 bytes, "
+                   "ustar prefix split, names that start like a magic number), each x every member sequence x the layouts of "
+                   "name_layouts(); "
                    "distinct_nontrivial = distinct (container, case family, verdict / failing clause set / exception type) classes",
            "per_family": dict(sorted(per.items())), "outcomes": dict(sorted(outcomes.items())),
            "outcome_examples": {k: examples[k] for k in sorted(examples)},
-           "bounds": {"tier": ctx.tier, "max_members": L, "layouts": len(layouts(ctx.tier))}}
+           "bounds": {"tier": ctx.tier, "max_members": L, "layouts": len(layouts(ctx.tier)),
+                      "name_families": {f: len(name_layouts(f, ctx.tier)) for f in name_families(ctx.tier)},
+                      "long_stem": LONG_STEM, "long_dir": LONG_DIR, "split_stem": SPLIT_STEM}}
     return {"coverage": cov, "failures": fails, "harness_errors": herr[:10],
             "assumptions": [
                 "an empty plain .tar (10 KiB of zero bytes) has no magic bytes; whether read_archive may refuse it is not judged",
@@ -704,7 +865,11 @@ def run(ctx):
                 "archive passes the base clauses (missing_empty does not block)",
                 "file_extension / folder_path are not named by the statement and are not compared; filename and file_path are compared "
                 "with strings computed by the harness",
-                "member names are short ASCII names, at most two directory levels deep"]}
+                "member names are at most two (thorough: three) directory levels deep; beyond the plain short ASCII names only the "
+                "listed name families are explored, and only on uncorrupted archives",
+                "a file below a dot directory (.git/x.txt) may or may not count as visible: its presence is not judged, its result is",
+                "\"./\" and \"/./\" inside the member part of a file_path are not compared (a!/./b and a!/b name the same member)",
+                "two entries with one name are what tar -r / -u and zipfile produce; a 7z archive with one name twice is not judged"]}
 
 
 SAMPLE_CASES = [
@@ -715,6 +880,8 @@ SAMPLE_CASES = [
     {"lay": {"arch": "zip", "comp": "deflated"}, "members": ["html", "bin", "txt"], "corrupt": [0, "trunc"]},
     {"lay": {"arch": "7z", "coder": "lzma", "layout": "per_file", "header": "plain", "between": False}, "members": ["txt", "docx"],
      "corrupt": [1, "flip"]},
+    {"lay": {"arch": "tar", "comp": "gz", "names": "same"}, "members": ["txt", "dir", "txt"], "corrupt": None},
+    {"lay": {"arch": "zip", "comp": "deflated", "names": "dotslash"}, "members": ["docx", "dir", "pdf"], "corrupt": None},
 ]
 
 
@@ -770,7 +937,7 @@ def shrinks(case):
             c = {"lay": lay, "members": mem, "corrupt": cor}
             if _valid(c):
                 yield c
-    for k in ("fmt", "attrs"):
+    for k in ("fmt", "attrs", "names"):
         if k in case["lay"]:
             lay = dict(case["lay"])
             del lay[k]
@@ -801,6 +968,11 @@ def shrinks(case):
             c = {"lay": case["lay"], "members": mem[:i] + ["txt"] + mem[i + 1:], "corrupt": cor}
             if _valid(c):
                 yield c
+    # ... all members of one kind at once (namesakes stay namesakes only if their extensions stay equal)
+    for kind in sorted(set(mem) - {"txt", "dir", "empty", "hidden", "bin"}):
+        c = {"lay": case["lay"], "members": ["txt" if k == kind else k for k in mem], "corrupt": cor}
+        if mem.count(kind) > 1 and _valid(c):
+            yield c
     for i, kind in enumerate(mem):
         if kind == "bin":
             c = {"lay": case["lay"], "members": mem[:i] + ["hidden"] + mem[i + 1:], "corrupt": cor}
